@@ -487,8 +487,10 @@ static void run_zone(const Zone& z, hz::Result& r) {
       i128 a = (c.rz.times.empty() ? 0 : c.rz.times.front()) - 2 * 31556952LL;
       i128 b = c.last_file + static_cast<i128>(802) * 31556952LL;
       if (c.rz.times.empty()) { a = -3000000000LL; b = 30000000000LL; }
-      if (a < IMIN) a = IMIN;
       if (b > IMAX) b = IMAX;
+      // a "big bang" first entry (-2^59) must not stretch the sweep over 18 billion years
+      if (a < b - static_cast<i128>(1300) * 31556952LL) a = b - static_cast<i128>(1300) * 31556952LL;
+      if (a < IMIN) a = IMIN;
       const long long step = 259207;
       long long n = 0;
       for (i128 t = a; t <= b; t += step) { check_c01_at(c, static_cast<long long>(t), r); if ((++n & 0xffff) == 0) hz::tick(); }
